@@ -4,6 +4,7 @@ pub mod par;
 pub mod memsource;
 pub mod codec;
 pub mod tilesets;
+pub mod containers;
 pub mod checks;
 
 pub use ctx::{Ctx, Tier};
